@@ -283,6 +283,25 @@ def fam_acorn(tier):
         yield {'kind': 'acorn', 'total': T, 'tracks': 40, 'spt': 10, 'files': [(st, 0)]}
 
 
+def fam_ties(tier):
+    """a zero-length file that shares its start sector with a non-empty file (what DFS produces when an empty file is saved and then another
+    file): both catalogue orders of the pair, alone / with a lower file / with a higher file"""
+    T = 11
+    for st in (2, 5):
+        for blen in (1, 256, 300):
+            for order in ('empty-first', 'empty-last'):
+                pair = [(st, 0), (st, blen)] if order == 'empty-first' else [(st, blen), (st, 0)]
+                for extra in ('none', 'lower', 'higher'):
+                    if extra == 'lower' and st == 2:
+                        continue
+                    files = list(pair)
+                    if extra == 'lower':
+                        files = files + [(2, 256)]
+                    if extra == 'higher':
+                        files = [(9, 257)] + files
+                    yield {'kind': 'acorn', 'total': T, 'tracks': 40, 'spt': 10, 'files': files, 'sig_extra': ':start-tie:' + order}
+
+
 def fam_watford(tier):
     """Watford: the same layouts on 13 sectors, split over the two catalogue halves in every way consistent with ordering"""
     T = 12 if tier == 'quick' else 14
@@ -359,7 +378,7 @@ def fam_counts(tier):
                 yield {'kind': kind, 'total': 400, 'tracks': 40, 'spt': 10, 'files': files[cut:], 'files2': files[:cut]}
 
 
-FAMILIES = [('B-boundary-totals-geometries', fam_boundary), ('N-full-catalogues', fam_counts), ('O-opus-volumes', fam_opus),
+FAMILIES = [('Z-empty-file-sharing-a-start-sector', fam_ties), ('B-boundary-totals-geometries', fam_boundary), ('N-full-catalogues', fam_counts), ('O-opus-volumes', fam_opus),
             ('A-acorn-all-layouts', fam_acorn), ('W-watford-all-layouts-splits', fam_watford)]
 
 
